@@ -860,6 +860,9 @@ func Run(c *hx.Ctx) {
 		history(c, c.Rng.Fork(), ti, size)
 	}
 	// one raw JSON text per case, through every position a hole content can take (raw.go)
+	for _, t := range fixedRawTexts() {
+		rawCaseOf(c, c.Rng.Fork(), false, t)
+	}
 	m := c.N(700, 20000)
 	for i := 0; i < m; i++ {
 		rawCase(c, c.Rng.Fork(), i%7 == 3)
